@@ -357,7 +357,7 @@ CORPUS = [
 
 # ---------------------------------------------------------------- systematic part of every quick run
 BAD_NUMS = [b"", b"x", b"7x", b"-1", b"+1", b" 1", b"1 ", b"0x10", b"1e3", b"2147483647", b"2147483648", b"4294967295",
-            b"4294967296", b"9223372036854775807", b"9223372036854775808", b"18446744073709551615",
+            b"4294967296", b"2147483649", b"4294967297", b"9223372036854775807", b"9223372036854775808", b"18446744073709551615",
             b"18446744073709551616", b"99999999999999999999999999"]
 BAD_MODES = [b"", b"644", b"06440", b"0648", b"064a", b"-644", b" 644", b"+644", b"0x1f", b"06 4", b"\xff644", b"7777",
              b"0000", b"4755", b"1777"]
@@ -556,6 +556,16 @@ def env_cases():
     for k in range(nreads + 1):
         cs.append(C(plain, env="short=%d:1" % k))
         cs.append(C(plain, env="eintr=%d" % k, oracle_only=True, files=[(b"f1", 20000, d), (b"g", 3, b"abc")]))
+    # write(2) -- file data and replies, one counter -- interrupted or short at every call index; the K-th open(2) failing
+    # (EMFILE); fstat(2) failing: oracle only
+    two = b"C0640 20000 f1\n" + d + b"\0C0644 9000 g\n" + d[:9000] + b"\0C0644 3 h\nabc\0"
+    tf = [(b"f1", 20000, d), (b"g", 9000, d[:9000]), (b"h", 3, b"abc")]
+    for k in range(14):
+        cs.append(C(two, env="wr=%d:e" % k, oracle_only=True, files=tf))
+        cs.append(C(two, env="wr=%d:s" % k, oracle_only=True, files=tf))
+    for k in range(3):
+        cs.append(C(two, env="open=%d" % k, oracle_only=True, files=tf))
+    cs.append(C(two, env="fstat=fail", oracle_only=True, files=tf))
     for k in (15, 16, 17):
         # interrupted inside the data of a file the peer then stops sending
         cs.append(C(b"C0640 20000 f1\n" + d[:9000], env="eintr=%d" % k, oracle_only=True))
@@ -843,13 +853,14 @@ def judge(ctx, cases, jails, ents_l, answers, crashes, mlines, t0, cov, dist, di
         # an interrupted read may END the copy (the receiver of the code as found treats any failed read as the end of its
         # input: the sender then misses a reply and knows), it must not be PAPERED OVER: when every record and every file
         # was acknowledged and no error record sent, every file must be what was sent
-        if c.get("env") and "eintr" in c["env"] and c.get("files") and not any(r.startswith("E:") for r in replies) \
+        if c.get("env") and c.get("oracle_only") and c.get("files") and not any(r.startswith("E:") for r in replies) \
                 and len(replies) >= 1 + 2 * len(c["files"]):
             for nm, n, data in c["files"]:
                 r = snaps[k].get(b"o/w/dest/" + nm)
                 if r is None or r["kind"] != "f" or r["data"] != data:
-                    ctx.offender("interrupted-read:silent-damage", "a read(2) of the receiver was interrupted (EINTR); no "
-                                 "error record was sent, yet %r is not what was sent" % nm, cj)
+                    ctx.offender("syscall-fault:silent-damage", "a system call of the receiver failed or was cut short (%s); "
+                                 "everything was acknowledged, no error record was sent, yet %r is not what was sent" %
+                                 (c["env"], nm), cj)
                     break
         if any(not (r == "A" or r.startswith("E:")) for r in replies) or "E:unterminated" in replies:
             ctx.offender("reply-garbled", "the reply stream is not a sequence of acknowledgements and error records: %s"
